@@ -328,13 +328,17 @@ class DiscreteFourierTransformBase(Operator):
         if self.impl != 'pyfftw':
             raise ValueError('cannot create fftw plan without fftw backend')
 
-        x = self.domain.element()
-        y = self.range.element()
+        x = self.domain.element().asarray()
+        y = self.range.element().asarray()
+        if (is_real_dtype(y.dtype) and not is_real_dtype(x.dtype) and
+                not self.halfcomplex):
+            # C2R without halfcomplex uses a complex temporary as output
+            y = np.empty(y.shape, dtype=x.dtype)
         kwargs.pop('planning_timelimit', None)
 
         direction = 'forward' if self.sign == '-' else 'backward'
         self._fftw_plan = pyfftw_call(
-            x.asarray(), y.asarray(), direction=direction,
+            x, y, direction=direction,
             halfcomplex=self.halfcomplex, axes=self.axes,
             planning_effort=planning_effort, **kwargs)
 
